@@ -50,7 +50,7 @@ from engine.core import MachineryError, digest
 # abstract syntax -> strings (the harness' only job besides driving and comparing)
 # ---------------------------------------------------------------------------------------------
 TYPES = {'a': 'application', 'b': 'text', 'c': 'image', 'e': 'x-app', '*': '*'}
-SUBS = {'x': 'json', 'y': 'plain', 'z': 'png', 'w': 'vnd.v1+json', '*': '*'}
+SUBS = {'x': 'json', 'y': 'plain', 'z': 'png', 'w': 'vnd.v1+json', 'm': 'xml', '*': '*'}
 SEMI = [';', ';', '; ', '; ', ' ;', ' ; ', ';\t', ';  ']
 COMMA = [',', ',', ', ', ', ', ' ,', ' , ', ',\t']
 BADQ = ['abc', '2', '1.5', '-0.5', '1.001', '', 'inf', 'nan', '0.5.5', '-1', '1.0.0', '0x1', 'q']
@@ -697,6 +697,193 @@ def leg_b_negotiation(ctx):
 BKEYS = None
 
 
+# ---------------------------------------------------------------------------------------------
+# error rendering after in-place edits of resp_options.media_handlers (HandlersError.tla)
+# ---------------------------------------------------------------------------------------------
+class ERun(HRun):
+    """One app per stack whose resp_options.media_handlers is ONE Handlers object configured at start-up and
+    edited in place afterwards; a route that raises an HTTPError, rendered by the default error serializer."""
+
+    def __init__(self, init_map):
+        HRun.__init__(self, init_map)
+        falcon = self.falcon
+        import falcon.asgi
+
+        class Res:
+            def on_get(self, req, resp):
+                raise falcon.HTTPBadRequest(title='Bad', description='an error to render')
+
+        class ARes:
+            async def on_get(self, req, resp):
+                raise falcon.HTTPBadRequest(title='Bad', description='an error to render')
+        self.eapps = {'wsgi': falcon.App(), 'asgi': falcon.asgi.App()}
+        self.eapps['wsgi'].add_route('/e', Res())
+        self.eapps['asgi'].add_route('/e', ARes())
+        for app in self.eapps.values():
+            app.resp_options.media_handlers = self.objs[0]
+        for m in ({'t': 'a', 's': 'x', 'pm': []}, {'t': 'a', 's': 'm', 'pm': []}, {'t': 'b', 's': 'm', 'pm': []}):
+            self.key(m)
+
+    def error(self, hdr, xml, stack, rng):
+        """one request answered with a rendered error -> the logged event"""
+        app = self.eapps[stack]
+        app.resp_options.xml_error_serialization = bool(xml)
+        header = render_header(hdr, rng)
+        rq = drivers.Req('GET', target=b'/e', headers=[('Accept', header.strip())])
+        res = drivers.wsgi_call(app, rq) if stack == 'wsgi' else drivers.asgi_call(app, rq)
+        if res.exc is not None or res.errors:
+            raise MachineryError('error request failed: %r %r' % (res.exc, res.errors))
+        body = res.body
+        if body == b'':
+            enc = 0
+        elif body[:1] == b'H' and body[1:].isdigit():
+            enc = int(body[1:])
+        elif body[:5] == b'<?xml':
+            enc = -1
+        elif body[:1] == b'{':
+            enc = -2
+        else:
+            enc = -9
+        cth = res.header('content-type')
+        ct = self.abst.get(cth, {'t': '?', 's': str(cth), 'pm': []}) if cth is not None else NOKEY
+        return {'op': 'error', 'o': 1, 'k': NOKEY, 'h': 0, 'pairs': [], 'r': bool(xml), 'hdr': hdr, 'xml': bool(xml), 'ct': ct, 'enc': enc,
+                'status': res.status or 0, 'map': self.view(1), 'via': stack, 'header': header, 'body': body[:80].decode('latin-1'),
+                'content_type': cth}
+
+
+def judge_error_event(ctx, ev, want, case):
+    """leg A: one rendered error against TLC's outcome [ct, enc] (clauses of HandlersErrorTrace)"""
+    if ev['status'] != 400:
+        return ctx.violation('P:status', case, 'error reached the client as %s' % ev['status'])
+    none = want['ct']['t'] == ''
+    if not none and ev['ct'] != norm_type(want['ct']):
+        return ctx.violation('P:offered', case, 'Accept %r: Content-Type %r, the mapping at that time offers %s'
+                             % (ev['header'], ev['content_type'], canon(want['ct'])))
+    if ev['enc'] != want['enc']:
+        return ctx.violation('P:offered' if none else 'P:encoder', case, 'Accept %r -> Content-Type %r with body %r (encoder %s); expected encoder %s '
+                             '(>0 handler id, 0 none, -1 built-in XML, -2 framework JSON)' % (ev['header'], ev['content_type'], ev['body'], ev['enc'], want['enc']))
+    return False
+
+
+def norm_type(m):
+    return {'t': m['t'], 's': m['s'], 'pm': [dict(n=p['n'], v=p['v']) for p in m['pm']]}
+
+
+def leg_errors(ctx):
+    rng = ctx.rng
+    # ---- M
+    r = ctx.tlc('MC_HandlersError', 'MC_HandlersError.cfg' if ctx.quick else 'MC_HandlersError4.cfg', coverage=ctx.quick, timeout=1500, workers=8)
+    if ctx.quick:
+        ctx.require_coverage(r, ['MMutate', 'MError'])
+    rw = ctx.tlc('MC_HandlersError', 'MC_HandlersErrorW.cfg', must_hold=False, count=False, timeout=600, workers=4)
+    if not rw.violated:
+        raise MachineryError('wrong-design switch MemoiseOffered=TRUE did not violate OfferedFollowsMapping')
+    # ---- A: TLC-simulated histories on real apps
+    ra = ctx.tlc('MC_HandlersError', 'MC_HandlersErrorSim.cfg', simulate={'num': ctx.pick(60, 600)}, depth=8, seed=ctx.seed + 13, workers=4,
+                 timeout=900, count=False)
+    behs = list({digest(j): j for j in ra.json if 'ev' in j}.values())[:ctx.pick(2500, 30000)]
+    n = 0
+    for bi, b in enumerate(behs):
+        evs = b['ev']
+        run = ERun(evs[0]['map'])
+        stack = ('wsgi', 'asgi')[bi % 2]
+        seen_error = mutated_after = nontrivial = False
+        case = {'leg': 'A-errors', 'stack': stack, 'behaviour': evs}
+        for si, st in enumerate(evs[1:]):
+            call = st['call']
+            if call['op'] == 'error':
+                e = st['err']
+                ev = run.error(e['hdr'], e['xml'], stack, rng)
+                nontrivial = nontrivial or (seen_error and mutated_after)
+                seen_error = True
+                if judge_error_event(ctx, ev, e, dict(case, step=si + 1, event=ev)):
+                    break
+            else:
+                ev = run.apply(spec_call(call))
+                mutated_after = seen_error
+                if ev['map'] != norm_map(st['map']):
+                    ctx.detail('D:map', dict(case, step=si + 1), 'mapping after %s: %r, model %r' % (ev['op'], ev['map'], st['map']))
+                    break
+        ctx.case(case, nontrivial=nontrivial, key=('err', digest(evs), stack))
+        n += 1
+    ctx.traces_validated += n
+    # ---- B: directed + random histories, judged by TLC
+    J, AX, TX, Y, Z = ({'t': 'a', 's': 'x', 'pm': []}, {'t': 'a', 's': 'm', 'pm': []}, {'t': 'b', 's': 'm', 'pm': []},
+                       {'t': 'a', 's': 'y', 'pm': []}, {'t': 'c', 's': 'z', 'pm': []})
+    keys = [J, AX, Y, Z, TX, {'t': 'a', 's': 'y', 'pm': [{'n': 'p', 'v': '1'}]}]
+
+    def R(t, q):
+        return {'t': t['t'], 's': t['s'], 'pm': list(t['pm']), 'q': q}
+    traces, cases = [], []
+    for i in range(ctx.pick(400, 8000)):
+        hid = itertools.count(11)
+        init = [{'k': rng.choice(keys[:3]), 'h': next(hid)} for _ in range(1)]
+        if rng.random() < 0.6 and init[0]['k'] != J:
+            init.append({'k': J, 'h': next(hid)})
+        run = ERun(init)
+        stack = ('wsgi', 'asgi')[i % 2]
+        xml = rng.random() < 0.5
+        evs = []
+        pool = keys[:rng.choice((3, 4, 6))]
+
+        def accept():
+            have = [e['k'] for e in run.view(1)]
+            t = rng.choice(pool + have) if rng.random() < 0.8 else rng.choice(keys)
+            u = rng.random()
+            if u < 0.45:
+                return [R(t, -1), R(J, rng.choice((100000, 500000, 100)))]
+            if u < 0.6:
+                return [R(t, rng.choice((-1, 900000)))]
+            if u < 0.75:
+                return [R(t, 800000), R(rng.choice(keys), 900000), R(J, 100000)]
+            if u < 0.85:
+                return [{'t': '*', 's': '*', 'pm': [], 'q': -1}]
+            return [R(rng.choice(keys), -1), R(rng.choice(keys), 500000)]
+        evs.append(run.error(accept(), xml, stack, rng))
+        for _ in range(rng.randint(2, 10)):
+            u = rng.random()
+            if u < 0.5:
+                if rng.random() < 0.15:
+                    xml = not xml
+                evs.append(run.error(accept(), xml, stack if rng.random() < 0.85 else ('asgi' if stack == 'wsgi' else 'wsgi'), rng))
+                continue
+            have = [e['k'] for e in run.view(1)]
+            k = rng.choice(have) if have and rng.random() < 0.5 else rng.choice(pool)
+            if u < 0.62:
+                c = {'op': 'set', 'o': 1, 'k': k, 'h': next(hid)}
+            elif u < 0.70:
+                c = {'op': 'del', 'o': 1, 'k': k}
+            elif u < 0.78:
+                c = {'op': 'pop', 'o': 1, 'k': k, 'r': rng.random() < 0.5}
+            elif u < 0.86:
+                c = {'op': 'update', 'o': 1, 'pairs': [{'k': rng.choice(pool), 'h': next(hid)} for _ in range(rng.randint(1, 2))]}
+            elif u < 0.91:
+                c = {'op': 'updatefail', 'o': 1, 'pairs': [{'k': rng.choice(pool), 'h': next(hid)} for _ in range(rng.randint(0, 2))]}
+            elif u < 0.97:
+                c = {'op': 'setdefault', 'o': 1, 'k': k, 'h': next(hid)}
+            else:
+                c = {'op': 'clear', 'o': 1}
+            ev = run.apply(c)
+            ev['hdr'], ev['xml'], ev['enc'], ev['status'] = [], False, 0, 0
+            evs.append(ev)
+        ctx.case({'leg': 'B-errors', 'init': init, 'events': len(evs)}, nontrivial=True, key=('errb', i))
+        traces.append({'init': init, 'ev': evs})
+        cases.append({'leg': 'B-errors', 'init': init, 'ev': evs})
+    verdicts = ctx.judge('HandlersErrorTrace', traces, timeout=900, chunk=3000)
+    for case, v in zip(cases, verdicts):
+        if v == 'ok':
+            continue
+        if v.startswith('H:'):
+            raise MachineryError('harness produced an invalid error history: %s' % v)
+        at = int(v.split('@')[1])
+        e = case['ev'][at - 1]
+        ctx.violation(v.split('@')[0], dict(case, ev=case['ev'][:at]), 'event %d via %s: Accept %r xml=%s -> Content-Type %r body %r (encoder %s), mapping %r'
+                      % (at, e.get('via'), e.get('header'), e.get('xml'), e.get('content_type'), e.get('body'), e.get('enc'), e.get('map')))
+    ctx.extra['error_histories'] = n
+    ctx.extra['random_error_histories'] = len(traces)
+    ctx.progress('error-rendering legs done: %d histories, %d random' % (n, len(traces)))
+
+
 def leg_b_handlers(ctx):
     rng = ctx.rng
     P1, P2, R1 = {'n': 'p', 'v': '1'}, {'n': 'p', 'v': '2'}, {'n': 'r', 'v': '1'}
@@ -817,6 +1004,7 @@ def run(ctx):
     leg_a_handlers(ctx)
     leg_b_negotiation(ctx)
     leg_b_handlers(ctx)
+    leg_errors(ctx)
 
 
 def replay(ctx, case):
